@@ -375,6 +375,14 @@ func (sc *SubCache[EntityT, ExcerptT, CacheT]) Resolve(id entity.Id) (CacheT, er
 	cached = sc.makeCached(e, sc.entityUpdated)
 
 	sc.mu.Lock()
+	if existing, ok := sc.cached[id]; ok {
+		// Another goroutine loaded the same entity while we were reading it. There must be only
+		// one live instance of an entity: operations added to a second one would never be seen
+		// by the holders of the first, and whoever commits last would drop the other's changes.
+		sc.lru.Get(id)
+		sc.mu.Unlock()
+		return existing, nil
+	}
 	sc.cached[id] = cached
 	sc.lru.Add(id)
 	sc.mu.Unlock()
